@@ -169,18 +169,22 @@ func (m *monitor) reachInside(p *value, desc string, depth int, seenSl map[unsaf
 	}
 }
 
-func intrMonitorStart(fr *frame, args []value) value {
+func newMonitor(i *interpreter, roots []value) *monitor {
 	m := &monitor{cells: map[*value]string{}, maps: map[*smap]string{}, seenW: map[string]bool{}}
 	seenSl := map[unsafe.Pointer]bool{}
-	for k, r := range args[0].([]value) {
+	for k, r := range roots {
 		m.reach(r, fmt.Sprintf("root%d", k), 0, seenSl)
 	}
-	for g, cell := range fr.i.globals {
-		if g.Pkg != nil && fr.i.eng.subject[g.Pkg.Pkg.Path()] {
+	for g, cell := range i.globals {
+		if g.Pkg != nil && i.eng.subject[g.Pkg.Pkg.Path()] {
 			m.reach(cell, "global "+g.Pkg.Pkg.Name()+"."+g.Name(), 0, seenSl)
 		}
 	}
-	fr.i.mon = m
+	return m
+}
+
+func intrMonitorStart(fr *frame, args []value) value {
+	fr.i.mon = newMonitor(fr.i, args[0].([]value))
 	return nil
 }
 
